@@ -40,6 +40,8 @@ def run(ctx):
 
 
 def _spec_row(p, E):
+    if p.kind == 'at_first':
+        return 0
     return p.k - 1 if p.kind == 'in' else None
 
 
@@ -220,7 +222,7 @@ def rule_classmap_1d(ctx, rid):
         # the selection mask inside the value: inam[(finds[:, jj] == ii), jj]
         sel = None
         for t in subterms(val):
-            if t[0] == 'cmp' and ls.var in (t[2], t[3]) and _find_digitize(t) is not None:
+            if t[0] == 'cmp' and ls.var in set(subterms(t)) and _find_digitize(t) is not None:
                 sel = t
         if sel is None:
             ctx.undecided(rid, fi, c, 'cannot find the class selection `finds == ii`')
